@@ -14,7 +14,10 @@ import (
 	"runtime/debug"
 	"sort"
 	"strings"
+	"time"
 )
+
+var cmdTimeout = 1500 * time.Second
 
 // B is a byte string that travels as a JSON array of integers (TLC cannot index strings).
 type B []byte
@@ -152,6 +155,11 @@ func main() {
 		fmt.Println(strings.Join(names, "\n"))
 	case "exec":
 		debug.SetPanicOnFault(true)
+		if v := os.Getenv("DRV_CMD_TIMEOUT"); v != "" {
+			if d, err := time.ParseDuration(v); err == nil {
+				cmdTimeout = d
+			}
+		}
 		in, err := os.Open(os.Args[2])
 		if err != nil {
 			fmt.Fprintln(os.Stderr, err)
@@ -177,7 +185,20 @@ func main() {
 				fmt.Fprintln(os.Stderr, "drv: bad command:", err)
 				os.Exit(3)
 			}
+			// watchdog: a call that does not return is reported by exit code 4 (the events written so far are
+			// complete, so the caller knows which command it was) instead of blocking the whole run
+			done := make(chan struct{})
+			go func(i int) {
+				select {
+				case <-done:
+				case <-time.After(cmdTimeout):
+					w.Flush()
+					fmt.Fprintf(os.Stderr, "drv: command %d did not return within %s\n", i, cmdTimeout)
+					os.Exit(4)
+				}
+			}(n)
 			ev := runOne(ctx, c)
+			close(done)
 			enc, err := json.Marshal(ev)
 			if err != nil {
 				fmt.Fprintln(os.Stderr, "drv: marshal:", err)
@@ -185,6 +206,7 @@ func main() {
 			}
 			w.Write(enc)
 			w.WriteByte('\n')
+			w.Flush() // every event reaches the file before the next call starts (a crash loses nothing)
 			n++
 		}
 		w.Flush()
